@@ -1,5 +1,6 @@
 """C39 contact_force reports the contact wrench."""
 from __future__ import annotations
+import copy
 import numpy as np
 from .common import Acc, intercept, result, search_result
 
@@ -8,15 +9,81 @@ LEAN_MODULES = ["MjwVerif.Props.C39"]
 GEN_FUNCS = ["support._decode_pyramid", "support.contact_force_fn", "support.contact_force_kernel"]
 KERNELS = ["support.contact_force_kernel"]
 LEVEL_TEXT = ("Theorems over the reals about _decode_pyramid / contact_force_fn / contact_force_kernel regenerated from support.py on every run: pyramidal decoding equals a transcription of "
-              "mju_decodePyramid for condim 1/3/4/6 under exactly the code's row guards, decode(encode f) = f, decoded forces lie in the friction pyramid when edge forces are >= 0, elliptic rows are "
+              "mju_decodePyramid for condim 1/3/4/6 under exactly the code's row guards (all rows below njmax INCLUDING the exact fit adr + 2(condim-1) = njmax; rows >= njmax read as 0), "
+              "decode(encode f) = f, decoded forces lie in the friction pyramid when edge forces are >= 0, elliptic rows are "
               "copied, guards (no rows / id out of range) give zero or leave the output untouched, world-frame rotation is frame^T and norm preserving; main theorem: for id < nacon, zero adhesion "
-              "and valid rows the kernel writes exactly the spec of mj_contactForce. The real contact_force is compared with mujoco.mj_contactForce on random scenes, both cones.")
+              "and valid rows the kernel writes exactly the spec of mj_contactForce. The real contact_force is compared with mujoco.mj_contactForce and with a NumPy transcription of "
+              "mju_decodePyramid / the elliptic row copy on random scenes in rotation over both cones x condim 1/3/4/6 (uniform and mixed per geom) x row capacity njmax "
+              "{generous default, EXACT fit njmax = nefc (last contact's last row is row njmax-1), ONE SHORT njmax = nefc-1 (last row dropped, reported overflow)}, the tight capacities with two worlds "
+              "(different velocities) so that a read past a world's rows lands in the neighbour's rows; plus a sweep that places the capacity boundary at and one below the end of individual contacts.")
 LEVEL_NOTE = ("Deviations documented by witnesses (C39Witness): ids >= nacon leave the output stale rather than zero; the elliptic branch lacks an `address >= 0` test (reachable only after a reported "
-              "nefc overflow); adhesion is subtracted from the normal force. Trusted: Lean kernel + Mathlib, translator; the spec is a transcription of MuJoCo's documented routine.")
-ASSUMPTIONS = ["oracle mujoco.mj_contactForce on the MjData returned by get_data_into after the same forward()"]
+              "nefc overflow; the oracle's one-short mode therefore compares only the components whose row exists in the elliptic cone and counts the skipped ones); adhesion is subtracted from the "
+              "normal force (scenes have zero adhesion). Trusted: Lean kernel + Mathlib, translator; the spec is a transcription of MuJoCo's documented routine.")
+ASSUMPTIONS = ["oracle mujoco.mj_contactForce on the MjData returned by get_data_into after the same forward() (generous and exact capacities)",
+               "oracle NumPy transcription of mju_decodePyramid / elliptic row copy on d.efc.force with dropped rows (index >= njmax) contributing zero force (all capacities)"]
+
+_CONES = ("pyramidal", "elliptic")
+# two free bodies far away from everything, one geom of every type used: they never touch anything but make the set of geom-type pairs
+# (hence the specialised narrowphase kernel mujoco_warp builds per model, ~3 s of code generation each) the same in every scene
+_BALLAST = "".join(f"""
+    <body name="ballast{i}" pos="{40 + 20 * i} 0 9"><freejoint name="ballast{i}"/>
+      <geom name="ballast{i}s" type="sphere" size=".05"/><geom name="ballast{i}c" type="capsule" size=".03 .05" pos=".2 0 0"/><geom name="ballast{i}b" type="box" size=".05 .05 .05" pos="-.2 0 0"/>
+    </body>""" for i in range(2))
+_CONDIMS = (3, 4, 6, 1)
 
 
-def _run(ctx, ncases, rec):
+def _decode_ref(cone, p, dim, mu):
+  """mju_decodePyramid (pyramidal) / copy (elliptic) of the edge/row forces p (dropped rows already zeroed), float64"""
+  f = np.zeros(6)
+  if cone == "elliptic" or dim == 1:
+    f[:dim] = p[:dim]
+    return f
+  for i in range(dim - 1):
+    f[0] += p[2 * i] + p[2 * i + 1]
+    f[i + 1] = (p[2 * i] - p[2 * i + 1]) * mu[i]
+  return f
+
+
+def _rotate(frame, f):
+  F = np.asarray(frame, dtype=np.float64).reshape(3, 3)
+  return np.concatenate([F.T @ f[:3], F.T @ f[3:]])
+
+
+class _Snapshot:
+  """host copy of the inputs of contact_force for one Data"""
+
+  def __init__(self, d):
+    self.nworld = d.nworld
+    self.njmax = int(d.njmax)
+    self.n = int(min(d.nacon.numpy()[0], d.naconmax))
+    n = self.n
+    self.nefc = d.nefc.numpy().astype(int)
+    self.force = d.efc.force.numpy().astype(np.float64)
+    self.adr = d.contact.efc_address.numpy()[:n].astype(int)
+    self.dim = d.contact.dim.numpy()[:n].astype(int)
+    self.mu = d.contact.friction.numpy()[:n].astype(np.float64)
+    self.frame = d.contact.frame.numpy()[:n].astype(np.float64)
+    self.wid = d.contact.worldid.numpy()[:n].astype(int)
+    self.adh = d.contact.adhesion.numpy()[:n].astype(np.float64)
+
+  def ndim(self, cone, k):
+    dm = int(self.dim[k])
+    return dm if (cone == "elliptic" or dm == 1) else 2 * (dm - 1)
+
+  def rows(self, cone, k, njmax):
+    """(edge forces with rows >= njmax zeroed, validity mask, magnitude scale); None if the contact has no rows"""
+    base = int(self.adr[k, 0])
+    if base < 0 or base >= njmax:
+      return None
+    nd = self.ndim(cone, k)
+    idx = base + np.arange(nd)
+    ok = idx < njmax
+    p = np.zeros(nd)
+    p[ok] = self.force[self.wid[k], idx[ok]]
+    return p, ok, float(np.abs(p).sum()) * max(1.0, float(np.abs(self.mu[k]).max()))
+
+
+def _run(ctx, ncases, rec, stop_after=None):
   import mujoco
   import warp as wp
   import mujoco_warp as mjw
@@ -24,50 +91,160 @@ def _run(ctx, ncases, rec):
   rng = np.random.default_rng(ctx.seed * 1000 + 39)
   acc = Acc()
 
+  def forces(m, d, ids, to_world):
+    out = wp.zeros(len(ids), dtype=wp.spatial_vector)
+    mjw.contact_force(m, d, wp.array(np.asarray(ids, dtype=np.int32), dtype=int), to_world, out)
+    return out.numpy().astype(np.float64)
+
+  def tol(scale):
+    # float32 decode: a handful of additions/multiplications of the edge forces (+ a 3x3 rotation): ~100 ulp of the magnitude
+    return 1e-5 * scale + 1e-9
+
+  def compare(tag, cone, condim, xml, mjm, m, d, njmax_view, mode, state, vs_mujoco):
+    """contact_force of every contact of d (both frames) against the transcription (and mj_contactForce when vs_mujoco)"""
+    s = _Snapshot(d)
+    if s.n == 0:
+      return s
+    dv = d
+    if njmax_view != s.njmax:
+      dv = copy.copy(d)
+      dv.njmax = int(njmax_view)
+    refs = {}
+    if vs_mujoco:
+      for w in range(s.nworld):
+        r = mujoco.MjData(mjm)
+        mjw.get_data_into(r, mjm, d, world_id=w)
+        if r.ncon != int((s.wid == w).sum()):
+          acc.hit("export-contact-count-differs-skip")
+          r = None
+        refs[w] = r
+    rank = np.zeros(s.n, dtype=int)  # index of contact k inside its world's exported contact list
+    for w in range(s.nworld):
+      sel = np.nonzero(s.wid == w)[0]
+      rank[sel] = np.arange(len(sel))
+    for to_world in (False, True):
+      got = forces(m, dv, np.arange(s.n), to_world)
+      for k in range(s.n):
+        if s.adh[k] != 0.0:
+          acc.hit("adhesion-nonzero-skip")
+          continue
+        r = s.rows(cone, k, njmax_view)
+        dm = int(s.dim[k])
+        if r is None:
+          if njmax_view != s.njmax and s.adr[k, 0] >= 0:
+            continue  # boundary sweep: contacts wholly above the moved boundary are not a consistent input
+          p, ok, scale = np.zeros(s.ndim(cone, k)), np.ones(s.ndim(cone, k), dtype=bool), 0.0
+        else:
+          p, ok, scale = r
+        want = _decode_ref(cone, p, dm, s.mu[k])
+        comp = np.ones(6, dtype=bool)
+        if cone == "elliptic" and not ok.all():
+          # documented witness (C39Witness): dropped elliptic rows are read through address -1; compare only existing rows
+          acc.hit("elliptic-dropped-row-components-not-compared")
+          if to_world:
+            continue
+          comp[:dm] = ok[:dm]
+        if not ok.all():
+          acc.hit(f"{tag}:contact-with-dropped-rows-{cone}")
+        elif r is not None and int(s.adr[k, 0]) + s.ndim(cone, k) == njmax_view:
+          acc.hit(f"{tag}:contact-ends-at-last-row-{cone}-dim{dm}")
+          if cone == "pyramidal" and dm > 1 and p[-1] != 0.0:
+            acc.hit(f"{tag}:last-row-edge-force-nonzero")
+        if to_world:
+          want = _rotate(s.frame[k], want)
+        t = tol(scale)
+        if not np.all(np.abs(got[k] - want)[comp] <= t):
+          acc.find(f"contact_force differs from the transcription of mju_decodePyramid/row copy (cone={cone}, condim={dm}, to_world={to_world}, capacity={mode}, njmax={njmax_view}, "
+                   f"rows {int(s.adr[k, 0])}..{int(s.adr[k, 0]) + s.ndim(cone, k) - 1})", "support.contact_force", "vs-transcription" if njmax_view == s.njmax else "njmax-boundary-sweep",
+                   xml=xml, njmax=int(njmax_view), njmax_allocated=s.njmax, nworld=s.nworld, contact=int(k), world=int(s.wid[k]), got=got[k].tolist(), want=want.tolist(), tol=t, **state)
+        ref = refs.get(int(s.wid[k]))
+        if ref is not None and ok.all():
+          f = np.zeros(6)
+          mujoco.mj_contactForce(mjm, ref, int(rank[k]), f)
+          if to_world:
+            f = _rotate(ref.contact.frame[int(rank[k])], f)
+          t2 = tol(max(scale, float(np.abs(f).max())))
+          if not np.all(np.abs(got[k] - f) <= t2):
+            acc.find(f"contact_force differs from mj_contactForce (cone={cone}, condim={dm}, to_world={to_world}, capacity={mode}, njmax={njmax_view})", "support.contact_force", "vs-mujoco",
+                     xml=xml, njmax=int(njmax_view), nworld=s.nworld, contact=int(k), world=int(s.wid[k]), got=got[k].tolist(), want=f.tolist(), tol=t2, **state)
+          acc.hit(f"{tag}:vs-mujoco")
+    return s
+
   def scenario():
     for c in range(ncases):
-      cone = "elliptic" if rng.random() < 0.5 else "pyramidal"
-      condim = int(rng.choice([1, 3, 4, 6]))
-      wb, sp = models.random_tree(rng, nbody=int(rng.integers(1, 4)), joint_types=("free",), geom_types=["sphere", "capsule", "box"], spread=0.3, sites=False)
-      xml = models.wrap(wb, option=f'cone="{cone}" iterations="60" tolerance="1e-10"').replace('<geom name="g', f'<geom condim="{condim}" name="g').replace(
-        '<geom name="floor"', f'<geom condim="{condim}" name="floor"')
-      mjm = mujoco.MjModel.from_xml_string(xml)
-      mjd = mujoco.MjData(mjm)
-      for j in range(mjm.njnt):
-        mjd.qpos[mjm.jnt_qposadr[j] + 2] = rng.uniform(0.02, 0.12)
-      mjd.qvel[:] = rng.normal(size=mjm.nv)
-      mujoco.mj_forward(mjm, mjd)
-      m = mjw.put_model(mjm)
-      d = mjw.put_data(mjm, mjd, nworld=1)
-      mjw.forward(m, d)
-      n = int(d.nacon.numpy()[0])
-      acc.evals += 1
-      if n == 0:
+      if stop_after is not None and len(acc.findings) >= stop_after:
+        break
+      # deterministic rotation: cone x condim every 8 cases; uniform condim in even rounds, mixed per geom in odd rounds
+      cone = _CONES[c % 2]
+      condim = _CONDIMS[(c // 2) % 4]
+      mixed = (c // 8) % 2 == 1
+      for attempt in range(5):
+        wb, sp = models.random_tree(rng, nbody=int(rng.integers(1, 4)), joint_types=("free",), free_root_prob=1.0, geom_types=["sphere", "capsule", "box"], spread=0.3, sites=False)
+        if mixed:
+          parts = wb.split('<geom name="g')
+          wb2 = parts[0] + "".join(f'<geom condim="{int(rng.choice([1, 3, 4, 6]))}" name="g' + q for q in parts[1:])
+        else:
+          wb2 = wb.replace('<geom name="g', f'<geom condim="{condim}" name="g')
+        xml = models.wrap(wb2 + _BALLAST, option=f'cone="{cone}" iterations="60" tolerance="1e-10"').replace('<geom name="floor"', f'<geom condim="{condim}" name="floor"')
+        xml = xml.replace('type="box"', 'type="box" contype="2"')  # no box-box pairs: the box-box routine dominates the code generation time of the narrowphase kernel
+        mjm = mujoco.MjModel.from_xml_string(xml)
+        mjd = mujoco.MjData(mjm)
+        for j in range(mjm.njnt - 2):
+          mjd.qpos[mjm.jnt_qposadr[j] + 2] = rng.uniform(0.02, 0.12)
+        mjd.qvel[:] = rng.normal(size=mjm.nv)
+        qvel1 = rng.normal(size=mjm.nv)  # second world of the tight-capacity runs
+        mujoco.mj_forward(mjm, mjd)
+        m = mjw.put_model(mjm)
+        d = mjw.put_data(mjm, mjd, nworld=1)
+        mjw.forward(m, d)
+        n = int(d.nacon.numpy()[0])
+        nefc = int(d.nefc.numpy()[0])
+        acc.evals += 1
+        if n > 0 and nefc > 0:
+          break
+        acc.hit("scene-without-contact-regenerated")
+      else:
         continue
-      acc.distinct.add((c, cone, condim))
-      for to_world in (False, True):
-        ids = wp.array(np.arange(n, dtype=np.int32), dtype=int)
-        out = wp.zeros(n, dtype=wp.spatial_vector)
-        mjw.contact_force(m, d, ids, to_world, out)
-        got = out.numpy()
-        # reference: mj_contactForce on the data exported from mjw (same forces, MuJoCo's decoder)
-        ref = mujoco.MjData(mjm)
-        mjw.get_data_into(ref, mjm, d)
-        if ref.ncon != n:
-          ctx.notes.append("get_data_into contact count differs; case skipped")
+      if n > d.naconmax or nefc > d.njmax:
+        acc.hit("default-capacity-overflow-skip")
+        continue
+      acc.distinct.add((c, cone, condim, mixed))
+      state = {"qpos": mjd.qpos.tolist(), "qvel": [mjd.qvel.tolist(), qvel1.tolist()]}
+
+      # 1. generous capacity (the default of put_data)
+      s = compare("generous", cone, condim, xml, mjm, m, d, int(d.njmax), "generous", state, True)
+
+      # 2. capacity boundary moved to the end (and one row before the end) of individual contacts: rows >= njmax must read as zero.
+      #    contact_force receives njmax as a launch argument; the view shares every array of d.
+      ends = [int(s.adr[k, 0]) + s.ndim(cone, k) for k in range(s.n) if s.adr[k, 0] >= 0]
+      if ends:
+        pick = {max(ends)} | {int(e) for e in rng.choice(ends, size=min(2, len(ends)), replace=False)}
+        for e in sorted(pick):
+          for nj in (e, e - 1):
+            if nj > 0:
+              compare("sweep", cone, condim, xml, mjm, m, d, nj, "boundary-sweep", state, False)
+
+      # 3. tight capacities really allocated: exact fit and one short (two worlds, different velocities, same contact set)
+      for mode, nj in (("exact", nefc), ("one-short", nefc - 1)):
+        if nj <= 0:
+          acc.hit(f"{mode}:no-rows-skip")
           continue
-        for k in range(n):
-          f = np.zeros(6)
-          mujoco.mj_contactForce(mjm, ref, k, f)
-          if to_world:
-            F = ref.contact.frame[k].reshape(3, 3)
-            f = np.concatenate([F.T @ f[:3], F.T @ f[3:]])
-          # match contact k of MuJoCo order with mjw order: get_data_into keeps mjw's order for one world
-          if not np.allclose(got[k], f, rtol=2e-4, atol=2e-4 * (1 + np.abs(f).max())):
-            acc.find(f"contact_force differs from mj_contactForce (cone={cone}, condim={condim}, to_world={to_world})", "support.contact_force", "vs-mujoco", xml=xml,
-                     got=got[k].tolist(), want=f.tolist())
-      acc.hit(f"{cone}-{condim}")
-      acc.sample({"cone": cone, "condim": condim, "ncon": n})
+        mj0 = mujoco.MjData(mjm)
+        mj0.qpos[:] = mjd.qpos
+        mj0.qvel[:] = mjd.qvel
+        d2 = mjw.put_data(mjm, mj0, nworld=2, njmax=nj)
+        qv = d2.qvel.numpy()
+        qv[1] = qvel1
+        wp.copy(d2.qvel, wp.array(qv, dtype=float))
+        mjw.forward(m, d2)
+        nefc2 = d2.nefc.numpy()
+        if int(d2.nacon.numpy()[0]) != 2 * n or any(int(x) != nefc for x in nefc2):
+          acc.hit(f"{mode}:row-count-differs-from-generous-run-skip")
+          continue
+        compare(mode, cone, condim, xml, mjm, m, d2, nj, mode, state, mode == "exact")
+        acc.hit(f"{mode}-{cone}-{'mixed' if mixed else condim}")
+      acc.hit(f"{cone}-{'mixed' if mixed else condim}")
+      acc.sample({"cone": cone, "condim": "mixed" if mixed else condim, "ncon": n, "nefc": nefc})
 
   if rec:
     kc, _ = intercept(KERNELS, scenario, rng, max_tids=16, per_kernel=4)
@@ -77,8 +254,12 @@ def _run(ctx, ncases, rec):
   return acc, kc
 
 
-RULE = ("1-3 free bodies (sphere/capsule/box) pressed into a floor, condim in {1,3,4,6} on every geom, both cones; contact_force for all contacts in contact and world frame vs mujoco.mj_contactForce "
-        "on the exported MjData; func-level differential of _decode_pyramid is covered by the kernel interception; distinct = scenes with contacts")
+RULE = ("1-3 free bodies (sphere/capsule/box; box-box pairs masked out by contype, two far-away ballast bodies keep the geom-pair-type set and hence the narrowphase kernel constant) pressed into a floor (regenerated until there is a contact); rotation cone = case mod 2, condim = (3,4,6,1)[case/2 mod 4] on every geom (rounds of 8 alternate "
+        "uniform / mixed per-geom condim); per scene contact_force of ALL contacts, contact and world frame, is compared (tolerance 1e-5 of the summed edge-force magnitude) with (a) mujoco.mj_contactForce "
+        "on the exported MjData and (b) a NumPy transcription of mju_decodePyramid / elliptic row copy, for three really allocated row capacities: default (generous), njmax = nefc (EXACT fit: the contact "
+        "allocated last ends at row njmax-1) and njmax = nefc-1 (ONE SHORT: its last row is dropped and must count as zero force; (b) only), the two tight ones with nworld = 2 and different velocities per "
+        "world; plus a boundary sweep passing njmax = end and end-1 of the last and two random contacts on the generous Data (rows >= njmax read as zero; (b) only); func-level differential of "
+        "_decode_pyramid is covered by the kernel interception; distinct = scenes with contacts; hits count contacts ending exactly at the last row / with dropped rows / with a non-zero last edge force")
 
 
 def correspondence(ctx):
@@ -87,5 +268,5 @@ def correspondence(ctx):
 
 
 def search(ctx, breaks):
-  acc, _ = _run(ctx, 80, False)
-  return search_result(acc, "mujoco.mj_contactForce")
+  acc, _ = _run(ctx, 48, False, stop_after=3)
+  return search_result(acc, "mujoco.mj_contactForce + transcription of mju_decodePyramid over row capacities {generous, exact, one short}")
